@@ -4,6 +4,7 @@
 let () = Drv_check.(ignore of_error)
 let () = Dfa_io.(ignore of_inp)
 let () = Drv_emit.(ignore emit_linked)
+let () = Drv_dot.(ignore linked)
 let () = Drv_amb.(ignore linked)
 let () = Drv_driver.(ignore linked)
 let () = Drv_minimize.(ignore of_min_outcome)
